@@ -74,3 +74,26 @@ func VerifPprofMiddleware() {
 	vnd.Cover(ctx.IsAborted(), "rejected request aborted")
 	vnd.Cover(!ctx.IsAborted(), "admitted request proceeds")
 }
+
+// VerifPprofRoutes: every route of the router PPROF.Initialize builds (those of gin-contrib/pprof), asked by a refused client.
+func VerifPprofRoutes() {
+	gin.SetMode(gin.ReleaseMode)
+	am := &verifAuth{outcome: 1 + vnd.Choose("refusal", 2)}
+	pp := &PPROF{Address: "127.0.0.1:0", ReadTimeout: conf.Duration(10e9), WriteTimeout: conf.Duration(10e9), AuthManager: am, Parent: verifC04Log{}}
+	if pp.Initialize() != nil {
+		vnd.Assume(false)
+	}
+	router, ok := pp.httpServer.Handler.(*gin.Engine)
+	vnd.Assert(ok, "the pprof server serves a gin router")
+	routes := router.Routes()
+	vnd.Assert(len(routes) >= 5, "the router lists the profiling routes")
+	rt := routes[vnd.Choose("route", len(routes))]
+	w := httptest.NewRecorder()
+	req := &http.Request{Method: rt.Method, URL: &url.URL{Path: rt.Path}, Header: http.Header{}, RemoteAddr: "192.0.2.7:4455", Body: http.NoBody}
+	faulted := vnd.Panics(func() { router.ServeHTTP(w, req) })
+	vnd.Assert(!faulted && am.calls == 1 && am.last.Action == conf.AuthActionPprof && w.Code == http.StatusUnauthorized, "every pprof route answers a refused client with 401 without running its handler")
+	vnd.Cover(true, "route asked")
+	if !vnd.Symbolic() {
+		pp.Close()
+	}
+}
